@@ -14,8 +14,8 @@ mcvars == <<res, tree, forest, held, nextid, last, steps, hist>>
 Docs == IF Kind = "d" THEN {D([a |-> D([a |-> S("i1")])]), D([a |-> L(<<S("i1")>>), b |-> S("i1")]), D([a |-> D([b |-> L(<<>>)])])}
         ELSE {L(<<D([a |-> S("i1")])>>), L(<<L(<<S("i1")>>), S("i1")>>), L(<<D([b |-> L(<<>>)])>>)}
 ArgVals == {S("i1"), EmptyD, D([a |-> S("n")]), L(<<S("i1")>>)}
-OpNames == {"setitem", "delitem", "clear", "reset", "update", "append", "pop", "insert", "call", "getitem", "len"}
-           \cup (IF Wide THEN {"setdefault", "popitem", "extend", "iadd", "reverse", "remove"} ELSE {})
+OpNames == {"setitem", "delitem", "clear", "reset", "update", "append", "pop", "insert", "call", "getitem", "len", "setdefault"}
+           \cup (IF Wide THEN {"popitem", "extend", "iadd", "reverse", "remove"} ELSE {})
 Menu(v) == LET all == IF IsD(v) THEN DictOps({"a", "b"}, ArgVals, {EmptyD}) ELSE ListOps({0, -1}, {<<1, NONE, NONE>>}, ArgVals, {EmptyL})
            IN {o \in all : o.op \in OpNames /\ ("y" \in DOMAIN o => (o.y = Null \/ o.op = "setdefault"))}
 HIds(o) == {RootId(o)} \cup {h[2] : h \in {x \in held : x[1] = o}}
